@@ -85,7 +85,7 @@ struct SrcFile {
     fix: bool,
 }
 
-fn source_files(seed: u64, case: &str, with_empty: bool, with_sig: bool, edge: bool) -> Vec<SrcFile> {
+fn source_files(seed: u64, case: &str, with_empty: bool, with_sig: bool, edge: bool, pow: i64) -> Vec<SrcFile> {
     let mut rng = Rng::derive(seed, &format!("{case}:src"));
     let mut v = vec![
         SrcFile { name: "data\\plain.txt", data: gen_content("text", rng.range(200, 600) as usize, &mut rng), comp: cflags::ZLIB, enc: false, fix: false },
@@ -100,6 +100,18 @@ fn source_files(seed: u64, case: &str, with_empty: bool, with_sig: bool, edge: b
     ];
     if with_empty {
         v.push(SrcFile { name: "data\\empty.bin", data: vec![], comp: cflags::ZLIB, enc: false, fix: false });
+    }
+    // a name with non-ASCII upper- and lower-case letters (name maps must not fold it differently in source and target)
+    v.push(SrcFile { name: "data\\\u{c9}t\u{e9}_\u{c4}\u{d6}\u{dc}\u{d1}.txt", data: gen_content("text", rng.range(100, 300) as usize, &mut rng), comp: cflags::ZLIB, enc: false, fix: false });
+    if pow > 0 {
+        // the largest file of this source: incompressible, 4 bytes below a power of two (see Gen_Rebuild)
+        let len = match pow {
+            1 => (1usize << 11) - 4,
+            2 => (1usize << 14) - 4,
+            _ => (1usize << 16) - 4,
+        };
+        v.retain(|f| f.data.len() < len);
+        v.push(SrcFile { name: "rnd\\pow2.bin", data: gen_content("random", len, &mut rng), comp: cflags::ZLIB, enc: false, fix: false });
     }
     if edge {
         let base = rng.bytes(300);
@@ -140,7 +152,8 @@ fn main() {
         let with_sig = src.get("sig").map(|x| x.as_bool() == Some(true)).unwrap_or(false);
         let edge = src.get("edge").map(|x| x.as_bool() == Some(true)).unwrap_or(false);
         let sbs = src.get("sbs").and_then(|x| x.as_i64()).unwrap_or(-1);
-        let files = source_files(seed, &case, gb(src, "empty"), with_sig, edge);
+        let pow = src.get("pow").and_then(|x| x.as_i64()).unwrap_or(0);
+        let files = source_files(seed, &case, gb(src, "empty"), with_sig, edge, pow);
         // ---- source archive
         let mut b = ArchiveBuilder::new()
             .version(version(gi(src, "ver")))
@@ -218,7 +231,7 @@ fn main() {
             }
         };
         let sig: Vec<String> = listed.iter().filter(|n| n.as_str() == "(signature)" || n.as_str() == "(strong signature)").cloned().collect();
-        evs.push(json!({"ev":"Reset","case":case,"ver":gi(src,"ver"),"at":gb(src,"at"),"empty":gb(src,"empty"),"sigfile":with_sig,"sbs":sbs,"edge":edge,"srcbad":srcbad,"hetbet":hetbet,
+        evs.push(json!({"ev":"Reset","case":case,"ver":gi(src,"ver"),"at":gb(src,"at"),"empty":gb(src,"empty"),"sigfile":with_sig,"sbs":sbs,"edge":edge,"pow":pow,"srcbad":srcbad,"hetbet":hetbet,
             "listed":listed,"tok":Value::Object(toks),"enc":enc,"sig":sig}));
         // ---- rebuild
         let target = gi(o, "target");
